@@ -30,7 +30,11 @@ def classify_f12_f13(fmt, ws, p):
         if len(full) >= 16 and full[10:16] == b"\x00" * 6:
             return "F12-format-detected-from-payload-bytes"
         if body and body[-1] == 0xFF:
-            return "F13-last-word-ends-in-FF"
+            # the finding is about trailing 0xFF runs of MORE than 9 bytes (word end + padding): a shorter run is never cut off by
+            # the unchanged code, so a word lost there is a new violation (seeds C12-F / C12-G)
+            t = len(body) - len(body.rstrip(b"\xFF"))
+            if t + p > 9:
+                return "F13-last-word-ends-in-FF"
         return None
     return None
 
